@@ -41,6 +41,7 @@ def one(t):
     env = dict(seed.ENV, VERIF_OVERLAY=ov, VERIF_GOCACHE=f'{V}/.gocache', VERIF_PAR='6')
     t0 = time.time()
     r = subprocess.run([f'{V}/check.sh', prop, 'quick'], env=env, capture_output=True, text=True)
+    subprocess.run(['git', '-C', V, 'checkout', '--', f'evidence/{prop}.json'], capture_output=True)  # evidence of a run against a changed tree is not evidence
     caught = r.returncode == 1 and f'VIOLATION property={prop}' in r.stdout
     lines = r.stderr.splitlines()
     first, msg = '', ''
